@@ -38,6 +38,15 @@ func primBlock(st []byte, groups ...[]byte) []byte {
 	return pb.B
 }
 
+// primBlockNoST is a PrimitiveBlock that leaves out the string table field altogether.
+func primBlockNoST(groups ...[]byte) []byte {
+	pb := &W{}
+	for _, g := range groups {
+		pb.Bytes(2, g)
+	}
+	return pb.B
+}
+
 type denseSpec struct {
 	ids, lats, lons     []int64
 	usids               []int64
@@ -233,6 +242,21 @@ func damages() []damage {
 			m.Bytes(9, PS([]int64{4, 1, 1}))
 			m.Bytes(10, PU([]uint64{1, 1}))
 		})))},
+		// blocks that reference strings but carry no (or an empty) string table of their own: every reference is out of
+		// range. Placed after intact blocks, so a worker that keeps state between blocks has a stale table to resolve them in.
+		{name: "no-stringtable-dense-keyvals", note: "PrimitiveBlock without field 1", block: data(primBlockNoST(denseGroup(denseSpec{ids: []int64{5}, lats: []int64{1}, lons: []int64{1}, kv: []uint64{1, 1, 0}})))},
+		{name: "no-stringtable-dense-usid", note: "PrimitiveBlock without field 1", block: data(primBlockNoST(denseGroup(denseSpec{ids: []int64{5}, lats: []int64{1}, lons: []int64{1}, usids: []int64{1}})))},
+		{name: "no-stringtable-way-keys", note: "PrimitiveBlock without field 1", block: data(primBlockNoST(wayGroup(func(m *W) {
+			m.Bytes(2, PU([]uint64{1}))
+			m.Bytes(3, PU([]uint64{1}))
+			m.Bytes(8, PS([]int64{1, 2}))
+		})))},
+		{name: "no-stringtable-rel-role", note: "PrimitiveBlock without field 1", block: data(primBlockNoST(relGroup(func(m *W) {
+			m.Bytes(8, PU([]uint64{1}))
+			m.Bytes(9, PS([]int64{7}))
+			m.Bytes(10, PU([]uint64{0}))
+		})))},
+		{name: "empty-stringtable-dense-keyvals", note: "string table present with zero entries", block: data(primBlock(nil, denseGroup(denseSpec{ids: []int64{5}, lats: []int64{1}, lons: []int64{1}, kv: []uint64{1, 1, 0}})))},
 		{name: "nested-varint-cut", block: func() []byte {
 			p := goodPayload(1000)
 			return pbfwire.FileBlock("OSMData", p[:len(p)-1], false)
